@@ -389,6 +389,9 @@ def work(block):
                     counts["nontrivial"] += 1
             acc = "accept" if v in ("same", "equiv") else ("reject" if v == "reject" else "disagree")
             counts["family:%s:%s" % (family, acc)] += 1
+            if v != "reject":       # every accepting FFI was asked twice and gave the same object again
+                counts["second_lookup:" + ("failed" if v == "second_lookup" else "same_object")] += \
+                    1 if v in ("c_rejects", "py_rejects", "second_lookup") else 2
             for x in f:
                 counts["feature:%s:%s" % (x, acc)] += 1
             if v not in AGREE:
